@@ -105,7 +105,7 @@ func c02diff(path string, a, b reflect.Value) string {
 }
 
 func TestZZBoundedC02(t *testing.T) {
-	fmt.Println("BOUNDED-BOUND: 140 statements (every statement family, every option of SELECT / SHOW / CREATE / ALTER, names needing quotes and escapes, keywords as names, extreme numbers and durations, negated operands, regexes with slashes, nested subqueries): parse, print, re-parse, structural comparison")
+	fmt.Println("BOUNDED-BOUND: 146 statements (every statement family, every option of SELECT / SHOW / CREATE / ALTER, names needing quotes and escapes, keywords as names, extreme numbers and durations, negated operands, regexes with slashes, nested subqueries): parse, print, re-parse, structural comparison")
 	corpus := []string{
 		`SELECT mean(value) FROM cpu WHERE host = 'a' AND time > now() - 1h GROUP BY time(5m), host fill(none) ORDER BY time DESC LIMIT 5 OFFSET 2 SLIMIT 3 SOFFSET 1 tz('UTC')`,
 		`SELECT mean(value) FROM cpu GROUP BY time(5m, 1m) fill(0)`,
@@ -224,6 +224,13 @@ func TestZZBoundedC02(t *testing.T) {
 		`SELECT value FROM cpu SLIMIT 1`,
 		`SELECT value FROM cpu OFFSET 1`,
 		`SELECT value FROM cpu SOFFSET 1`,
+		`SELECT value FROM cpu WHERE f > 9500000000000000000.0 OR f < -9500000000000000000.0 OR f = 0.1 OR f = 123456789012345678.0`,
+		`CREATE RETENTION POLICY rp ON db DURATION 1d REPLICATION 1 SHARD DURATION 1500ms`,
+		`CREATE DATABASE db WITH DURATION 1500ms REPLICATION 1 SHARD DURATION 2500ms NAME rp`,
+		`ALTER RETENTION POLICY rp ON db SHARD DURATION 1500ms`,
+		`CREATE CONTINUOUS QUERY cq ON db RESAMPLE EVERY 1500ms FOR 2500ms BEGIN SELECT mean(value) INTO out FROM cpu GROUP BY time(1500ms) END`,
+		`SHOW TAG VALUES WITH KEY !~ /ho.*/`,
+		`SHOW TAG KEYS WITH KEY != host`,
 		`EXPLAIN SELECT value FROM cpu`, `EXPLAIN ANALYZE SELECT value FROM cpu`,
 	}
 	total, ok := 0, 0
